@@ -5,6 +5,7 @@ use crate::{
         Namespace,
         field::as_field_name,
         helpers::{write_check_restrictions_footer, write_check_restrictions_header},
+        structures::xml_name_to_rust_name,
     },
     reader::WriteXml,
 };
@@ -111,7 +112,7 @@ where
             let field_name = as_field_name(part_name);
             // the header element is the one the part refers to: its own name on the wire, its struct as type
             let xml_name = header.rust_type.xml_name().ok_or(WriterError::InvalidReference)?;
-            let rust_type = to_pascal_case(xml_name);
+            let rust_type = xml_name_to_rust_name(xml_name);
 
             if let Some(namespace) = header.in_namespace.as_ref() {
                 let abbreviation = namespace.abbreviation.as_str();
@@ -149,7 +150,7 @@ where
     let xml_name = soap_operation.body.rust_type.xml_name().ok_or(WriterError::InvalidReference)?;
     let body_field_name = as_field_name(&to_snake_case(xml_name));
     // the struct generated for the body element is named in PascalCase
-    let body = to_pascal_case(xml_name);
+    let body = xml_name_to_rust_name(xml_name);
 
     writeln!(writer, "#[derive(Debug, Default, YaSerialize, YaDeserialize)]")?;
 
